@@ -695,9 +695,9 @@ LEVEL_NOTE = ("Trusted: Coq kernel; extraction and ocaml/driver.ml for the corre
               "apply_request_rewrites_and_headers) are modelled and tied through hooks. The theorems about the correlation "
               "header assume its name passes validate_sozu_id_header, which (fix in /repo) rejects the names the proxy owns "
               "or interprets; the reserved list is compared with the source on every run, and so is the fact that both the add "
-              "and the update paths of ConfigState call the validator (/repo aa7c657, 3983005). Black-box tiers: "
+              "and the update paths of ConfigState call the validator (/repo 9bed6b5, 3a1cd16). Black-box tiers: "
               "HTTP/1 and HTTP/2 (TLS) frontends of a real worker, HTTP/1.1 and h2c recording backends behind both (trailer sections "
               "split across reads, keep-alive pipelining, connection retries with a request-header rule, :scheme toward h2c). Defects "
-              "found and fixed in /repo: f4ed09f 2cc7234 67251ca bc06be5 aa7c657 7461b88 724990d 7f45d68.")
+              "found and fixed in /repo: f4ed09f 2cfde03 0aa2506 2bfa35c 9bed6b5 a0617cc 026fdd3 159a5ae.")
 TECHNIQUE = "Rocq/Coq proof over an executable Gallina model + differential correspondence (extracted OCaml vs real crate)"
 CLAIMED = True
